@@ -49,7 +49,16 @@ func scenario(H int, withNoPub bool, shapes []int, msgsPerTopic, c int) *explore
 // inFlight: the subscribers hand out the next message without waiting for the previous settlement, and
 // goroutine starts are scheduling points (a dispatch goroutine may start late).
 func scenarioX(H int, withNoPub bool, shapes []int, msgsPerTopic, c int, inFlight bool) *explore.Scenario {
+	return scenarioD(H, withNoPub, shapes, msgsPerTopic, c, inFlight, false)
+}
+
+// deco: the router has a publisher decorator and a subscriber decorator (the context still names the
+// handler's own publisher and subscriber, not the decorators wrapped around them).
+func scenarioD(H int, withNoPub bool, shapes []int, msgsPerTopic, c int, inFlight bool, deco bool) *explore.Scenario {
 	name := fmt.Sprintf("H%d/c%d/n%d/shapes", H, c, msgsPerTopic)
+	if deco {
+		name = "decorated/" + name
+	}
 	if inFlight {
 		name = fmt.Sprintf("inflight/H%d/c%d/n%d/shapes", H, c, msgsPerTopic)
 	}
@@ -95,6 +104,10 @@ func scenarioX(H int, withNoPub bool, shapes []int, msgsPerTopic, c int, inFligh
 		if err != nil {
 			vs.Fail("setup", "%v", err)
 			return
+		}
+		if deco {
+			r.AddPublisherDecorators(message.MessageTransformPublisherDecorator(func(m *message.Message) {}))
+			r.AddSubscriberDecorators(message.MessageTransformSubscriberDecorator(func(m *message.Message) {}))
 		}
 		var invs []*invocation
 		running := map[int]int{} // goroutine -> handler whose function it ran last (the router publishes from that goroutine)
@@ -311,6 +324,13 @@ func init() {
 	// schedules: a few fixed shapes with preemptions
 	add(reg.Quick, 20, 2, false, []int{1, 3}, 1, 0, 1)
 	add(reg.Quick, 20, 2, false, []int{4, 4}, 1, 0, 1)
+	// routers with a publisher and a subscriber decorator
+	for _, sh := range [][]int{{0}, {1}, {2}, {3}, {4}, {1, 3}, {4, 4}, {2, 0}, {3, 1, 4}} {
+		sh := sh
+		sc := scenarioD(len(sh), false, sh, 1, -1, false, true)
+		reg.AddW("C08", sc.Name, reg.Quick, 5, func(t reg.Tier) *explore.Scenario { return scenarioD(len(sh), false, sh, 1, -1, false, true) })
+	}
+	reg.AddW("C08", scenarioD(2, true, []int{1, 3}, 1, -1, false, true).Name, reg.Quick, 5, func(t reg.Tier) *explore.Scenario { return scenarioD(2, true, []int{1, 3}, 1, -1, false, true) })
 	// several messages in flight on one handler, dispatch goroutines may start late
 	for _, sh := range []int{0, 1, 3} {
 		sh := sh
